@@ -639,3 +639,64 @@ Proof.
     apply orb_true_iff in H3 as [H3|H3]; apply str_eqb_eq in H3; [contradiction|exact H3].
   - intros c Hc. rewrite forallb_forall in H4. specialize (H4 c Hc). apply negb_true_iff in H4. exact H4.
 Qed.
+
+(* ------------------------------------------------------------------------------ *)
+(** * drop_rel: reference counting *)
+
+Lemma pop_rel_spec rid rs rs' : pop_rel rid rs = Ok rs' ->
+  In rid (map rr_id rs) /\ rs' = filter (fun r => negb (str_eqb (rr_id r) rid)) rs.
+Proof. unfold pop_rel. destruct (mem_str rid (map rr_id rs)) eqn:E; [|discriminate]. intros [= <-]. split; auto. apply mem_str_In; auto. Qed.
+
+(** a relationship is removed only when at most one r:id attribute names it; every other
+    relationship, and everything else about the part, stays *)
+Theorem drop_rel_spec p rid p' : drop_rel p rid = Ok p' ->
+  (2 <= ref_count rid p /\ p' = p) \/
+  (ref_count rid p < 2 /\ In rid (map rr_id (pt_rels p)) /\
+   p' = with_rels p (filter (fun r => negb (str_eqb (rr_id r) rid)) (pt_rels p))).
+Proof.
+  unfold drop_rel. destruct (Nat.ltb (ref_count rid p) 2) eqn:E.
+  - apply Nat.ltb_lt in E. destruct (pop_rel rid (pt_rels p)) as [rs|] eqn:Ep; cbn [bind]; [|discriminate].
+    intros [= <-]. right. apply pop_rel_spec in Ep as [H1 ->]. auto.
+  - apply Nat.ltb_ge in E. intros [= <-]. left. auto.
+Qed.
+
+Theorem drop_rel_keeps_shared p rid : 2 <= ref_count rid p -> drop_rel p rid = Ok p.
+Proof. intros H. unfold drop_rel. apply Nat.ltb_ge in H. rewrite H. reflexivity. Qed.
+
+Theorem drop_rel_err p rid e : drop_rel p rid = Err e ->
+  e = KeyErr /\ ref_count rid p < 2 /\ ~ In rid (map rr_id (pt_rels p)).
+Proof.
+  unfold drop_rel. destruct (Nat.ltb (ref_count rid p) 2) eqn:E; [|discriminate].
+  apply Nat.ltb_lt in E. unfold pop_rel. destruct (mem_str rid (map rr_id (pt_rels p))) eqn:Em; cbn [bind]; [discriminate|].
+  intros [= <-]. split; auto. split; auto. apply Opc_proofs.mem_str_nIn. exact Em.
+Qed.
+
+(** the other relationships are untouched by a drop *)
+Lemma drop_rel_others p rid p' r : drop_rel p rid = Ok p' -> In r (pt_rels p) -> rr_id r <> rid -> In r (pt_rels p').
+Proof.
+  intros H Hr Hne. apply drop_rel_spec in H as [[_ ->]|(_ & _ & ->)]; auto.
+  cbn [pt_rels with_rels]. apply filter_In. split; auto. apply negb_true_iff. apply Opc_proofs.str_eqb_neq. exact Hne.
+Qed.
+
+(** ** the implicit-relationship edge.  get_or_add hands back an existing relationship of
+    the same type and target whether or not anything in the XML refers to it ... *)
+Theorem get_or_add_reuses t g rs r : In r rs -> rr_type r = t -> rr_tgt r = g ->
+  exists rid, get_or_add t g rs = Ok (rs, rid) /\ In rid (map rr_id rs).
+Proof.
+  intros Hr Ht Hg. unfold get_or_add, get_matching.
+  destruct (find (fun r0 => str_eqb (rr_type r0) t && tgt_eqb (rr_tgt r0) g) rs) as [r0|] eqn:E.
+  - exists (rr_id r0). split; auto. apply find_some in E as [Hin _]. apply in_map. exact Hin.
+  - exfalso. apply (find_none _ _ E) in Hr. rewrite Ht, Hg, str_eqb_refl in Hr. simpl in Hr.
+    destruct g; simpl in Hr; [rewrite Nat.eqb_refl in Hr|rewrite str_eqb_refl in Hr]; discriminate.
+Qed.
+
+(** ... and drop_rel counts r:id attributes only: a relationship that existed without any
+    reference (count 0) and is then named by one link slot (count 1) is removed with it *)
+Theorem drop_rel_implicit p rid : ref_count rid p <= 1 -> In rid (map rr_id (pt_rels p)) ->
+  exists p', drop_rel p rid = Ok p' /\ ~ In rid (map rr_id (pt_rels p')).
+Proof.
+  intros Hc Hin. unfold drop_rel. assert (E : Nat.ltb (ref_count rid p) 2 = true) by (apply Nat.ltb_lt; lia).
+  rewrite E. unfold pop_rel. apply mem_str_In in Hin. rewrite Hin. cbn [bind].
+  eexists. split; [reflexivity|]. cbn [pt_rels with_rels]. intros H. apply in_map_iff in H as (r & Hr & Hf).
+  apply filter_In in Hf as [_ Hf]. rewrite Hr, str_eqb_refl in Hf. discriminate.
+Qed.
